@@ -155,6 +155,20 @@ func runR85(c *Ctx) {
 				return false, false
 			}
 			pe.oracle = func(pe *pathExec, cond ssa.Value) (bool, bool) { return pe.evalBool(cond, atom) }
+			pe.inline = func(callee *ssa.Function) bool {
+				// helpers that build part of the output in a byte buffer (an extracted appendJSONRecord)
+				if callee.Pkg != fn.Pkg {
+					return false
+				}
+				for _, prm := range callee.Params {
+					if sl, ok := prm.Type().Underlying().(*types.Slice); ok {
+						if b, ok := sl.Elem().Underlying().(*types.Basic); ok && b.Kind() == types.Byte {
+							return true
+						}
+					}
+				}
+				return false
+			}
 			bad := ""
 			pe.onInstr = func(pe *pathExec, in ssa.Instruction) {
 				switch t := in.(type) {
